@@ -66,6 +66,9 @@ def tasks_for(tier: str, seed: int) -> List[Any]:
         for i in range(n):
             tasks.append(("mc.c15_adapters", "run_config", dict(family=fam, index=i, tier=tier, seed=seed,
                                                                model=A.CONFIGS[fam][i][0])))
+    if not only:
+        tasks.append(("mc.c15_adapters", "run_config", dict(family="_scripted", index=0, tier=tier, seed=seed,
+                                                           model=A.STUBS[0][0])))
     for name, in_quick in M.MTS_CONFIGS:
         if only and catalog.BY_NAME[name].family not in only:
             continue
